@@ -79,6 +79,15 @@ type Wide struct {
 	Tail                   Inner
 }
 
+// Holder contains model.Inner in every container position; it is the shared
+// enclosing type for per-instance custom folders/unfolders of Inner (C19).
+type Holder struct {
+	A Inner
+	L []Inner
+	P *Inner
+	M map[string]Inner
+}
+
 type InlineIfc struct {
 	A string
 	I interface{} `struct:",inline"`
@@ -229,6 +238,15 @@ func mk[T any](name string, hasStr bool, gen func(c *simkit.Choices) T) TypeEntr
 }
 
 func genStr(c *simkit.Choices) string { return GenText(c, 80) }
+
+// genU64 draws a uint64; one in six lies above MaxInt64 (UBJSON carries those
+// as high-precision decimals).
+func genU64(c *simkit.Choices) uint64 {
+	if c.N(6) == 0 {
+		return GenUintBig(c).U
+	}
+	return uint64(genI(c)) >> 1
+}
 func genI(c *simkit.Choices) int64    { return GenInt(c).Int64() }
 func genF(c *simkit.Choices) float64  { return math.Float64frombits(GenF64(c, false).F) }
 
@@ -334,7 +352,7 @@ var Catalogue = []TypeEntry{
 	mk("uint8", false, func(c *simkit.Choices) uint8 { return uint8(c.N(256)) }),
 	mk("uint16", false, func(c *simkit.Choices) uint16 { return uint16(c.N(65536)) }),
 	mk("uint32", false, func(c *simkit.Choices) uint32 { return uint32(genI(c)) }),
-	mk("uint64", false, func(c *simkit.Choices) uint64 { return uint64(genI(c)) >> 1 }),
+	mk("uint64", false, func(c *simkit.Choices) uint64 { return genU64(c) }),
 	mk("uint", false, func(c *simkit.Choices) uint { return uint(genI(c)) >> 1 }),
 	mk("float32", false, func(c *simkit.Choices) float32 { return math.Float32frombits(uint32(GenF32(c, false).F)) }),
 	mk("float64", false, genF),
@@ -346,7 +364,7 @@ var Catalogue = []TypeEntry{
 	mk("[]int64", false, func(c *simkit.Choices) []int64 { return genSlice(c, genI) }),
 	mk("[]uint8", false, func(c *simkit.Choices) []uint8 { return genSlice(c, func(c *simkit.Choices) uint8 { return uint8(c.N(256)) }) }),
 	mk("[]uint16", false, func(c *simkit.Choices) []uint16 { return genSlice(c, func(c *simkit.Choices) uint16 { return uint16(c.N(65536)) }) }),
-	mk("[]uint64", false, func(c *simkit.Choices) []uint64 { return genSlice(c, func(c *simkit.Choices) uint64 { return uint64(genI(c)) >> 1 }) }),
+	mk("[]uint64", false, func(c *simkit.Choices) []uint64 { return genSlice(c, genU64) }),
 	mk("[]float32", false, func(c *simkit.Choices) []float32 {
 		return genSlice(c, func(c *simkit.Choices) float32 { return math.Float32frombits(uint32(GenF32(c, false).F)) })
 	}),
@@ -420,6 +438,14 @@ var Catalogue = []TypeEntry{
 	foldOnly(mk("InlineFolder", true, func(c *simkit.Choices) InlineFolder {
 		return InlineFolder{A: genStr(c), T: Labels(genMap(c, genStr)), Z: genSlice(c, genStr)}
 	})),
+	mk("Holder", true, func(c *simkit.Choices) Holder {
+		h := Holder{A: genInner(c), L: genSlice(c, genInner), M: genMap(c, genInner)}
+		if c.Bool() {
+			i := genInner(c)
+			h.P = &i
+		}
+		return h
+	}),
 	mk("Wide", true, func(c *simkit.Choices) Wide {
 		return Wide{A: genStr(c), D: genStr(c), H: genStr(c), N1: genI(c), N4: genI(c), Mid: genInner(c), L1: genSlice(c, genStr),
 			M1: genMap(c, genStr), Last: genSimple(c), Tail: genInner(c)}
